@@ -133,3 +133,14 @@ pub fn c15_concrete(v: &Vec<u32>) -> usize {
 pub fn c15_single_view<T: View>(v: &T) -> Option<f64> {
     v.as_f64()
 }
+
+
+/// C01-R6 positive control: a two-pass rewrite in which the first replacement feeds the second
+pub fn c01_replace_chain(s: &str) -> String {
+    s.replace("\\\\", "\\").replace("\\/", "/")
+}
+
+/// C01-R6 negative control: the second pattern cannot be formed by the first replacement
+pub fn c01_replace_chain_ok(s: &str) -> String {
+    s.replace('~', "~0").replace('/', "~1")
+}
